@@ -9,6 +9,7 @@ import (
 	"fmt"
 	"go/constant"
 	"go/token"
+	"go/types"
 
 	"golang.org/x/tools/go/ssa"
 )
@@ -32,6 +33,54 @@ func ruleC10DiscDecoderContract(c *Ctx, rule string) {
 	}
 	c.Analysed(FuncName(dec))
 	c.Analysed(FuncName(hm))
+	// the decoder's results by role: (type, tag, peers, error), or one struct holding the first three
+	// (the type is its 8-bit integer field, the tag its string field) and the error
+	nres := dec.Signature.Results().Len()
+	errIdx := nres - 1
+	var typeField, tagField *types.Var
+	if nres == 2 {
+		if st, ok := dec.Signature.Results().At(0).Type().Underlying().(*types.Struct); ok {
+			for i := 0; i < st.NumFields(); i++ {
+				f := st.Field(i)
+				if b, isB := f.Type().Underlying().(*types.Basic); isB {
+					switch {
+					case b.Info()&types.IsInteger != 0 && intWidth(f.Type()) == 8 && typeField == nil:
+						typeField = f
+					case b.Info()&types.IsString != 0 && tagField == nil:
+						tagField = f
+					}
+				}
+			}
+		}
+	}
+	if !(nres == 4 || (nres == 2 && typeField != nil && tagField != nil)) {
+		c.Bad(rule, FuncName(dec), "decoder returns", "-", "the decoder's results are neither (type, tag, peers, error) nor a struct of those with an error")
+		return
+	}
+	// part(ret, role): what a return hands out as type (0) / tag (1); zero=true for the zero value
+	part := func(r *ssa.Return, role int) (v ssa.Value, zero bool) {
+		if nres == 4 {
+			return retResult(r, role), false
+		}
+		sv := retResult(r, 0)
+		f := typeField
+		if role == 1 {
+			f = tagField
+		}
+		if k, isK := sv.(*ssa.Const); isK && k.Value == nil {
+			return nil, true
+		}
+		fv := structFieldValue(sv, f, 0)
+		if fv == nil {
+			// a literal that leaves the field out: the zero value
+			if a := allocOfStructValue(sv); a != nil {
+				if _, set := structLitFieldValue(a, f); !set {
+					return nil, true
+				}
+			}
+		}
+		return fv, false
+	}
 	// does the handler stop on a decoding error after all?  then (a) and (c) are not needed
 	stopsOnError := false
 	for _, in := range instrsOf(hm) {
@@ -43,8 +92,8 @@ func ruleC10DiscDecoderContract(c *Ctx, rule string) {
 			if f.Op != token.EQL || !isNilConst(f.Y) {
 				return false
 			}
-			e, ok := strip(f.X).(*ssa.Extract)
-			if !ok || e.Index != 3 {
+			e, ok := stripNoParam(f.X).(*ssa.Extract)
+			if !ok || e.Index != errIdx {
 				return false
 			}
 			dc, ok := e.Tuple.(*ssa.Call)
@@ -53,6 +102,7 @@ func ruleC10DiscDecoderContract(c *Ctx, rule string) {
 		break
 	}
 	// (a), (b)
+	var succTags, succTypes []ssa.Value // what the successful returns hand out (struct form: seen through the call)
 	lo, hi := int64(-1), int64(-1)
 	nErr, nOK := 0, 0
 	for _, in := range instrsOf(dec) {
@@ -61,13 +111,17 @@ func ruleC10DiscDecoderContract(c *Ctx, rule string) {
 			continue
 		}
 		res := retResults(r)
-		if len(res) != 4 {
+		if len(res) != nres {
 			continue
 		}
-		if !isNilConst(res[3]) {
+		if !isNilConst(res[errIdx]) {
 			nErr++
-			k, isK := strip(res[1]).(*ssa.Const)
-			empty := isK && k.Value != nil && k.Value.Kind() == constant.String && constant.StringVal(k.Value) == ""
+			tagV, zero := part(r, 1)
+			empty := zero
+			if tagV != nil {
+				k, isK := strip(tagV).(*ssa.Const)
+				empty = isK && k.Value != nil && k.Value.Kind() == constant.String && constant.StringVal(k.Value) == ""
+			}
 			if stopsOnError {
 				c.OK(rule, FuncName(dec), "error return carries the empty tag", m.Pos(r.Pos()), "not needed: Member.HandleMessage returns on a decoding error")
 				continue
@@ -77,9 +131,16 @@ func ruleC10DiscDecoderContract(c *Ctx, rule string) {
 			continue
 		}
 		nOK++
+		typeV, _ := part(r, 0)
+		if tv, _ := part(r, 1); tv != nil {
+			succTags = append(succTags, strip(tv))
+		}
+		if typeV != nil {
+			succTypes = append(succTypes, strip(typeV))
+		}
 		var l, h int64 = -1, -1
 		for _, f := range FactsAt(r) {
-			if f.Op == 0 || strip(f.X) != strip(res[0]) {
+			if f.Op == 0 || typeV == nil || strip(f.X) != strip(typeV) {
 				continue
 			}
 			k, isK := constInt(f.Y)
@@ -132,7 +193,7 @@ func ruleC10DiscDecoderContract(c *Ctx, rule string) {
 				if x.Call.IsInvoke() && x.Call.Method.Name() == "Sum" {
 					return true
 				}
-				if f := staticCallee(&x.Call); f != nil && f.Name() == "makePRF" {
+				if f := staticCallee(&x.Call); f != nil && (f.Name() == "makePRF" || discPRFEvals(m)[f]) {
 					return true
 				}
 				return false
@@ -151,8 +212,34 @@ func ruleC10DiscDecoderContract(c *Ctx, rule string) {
 			decCall = cl
 		}
 	}
+	// isDecPart: v is what the decoder call handed out as type (0) / tag (1)
+	isDecPart := func(v ssa.Value, role int) bool {
+		if decCall == nil {
+			return false
+		}
+		if e, ok := stripNoParam(v).(*ssa.Extract); ok && nres == 4 && e.Tuple == ssa.Value(decCall) && e.Index == role {
+			return true
+		}
+		if e, ok := strip(v).(*ssa.Extract); ok && nres == 4 && e.Tuple == ssa.Value(decCall) && e.Index == role {
+			return true
+		}
+		if nres == 2 {
+			// a field of the struct the call returned: seen through to the successful return's value
+			vals := succTypes
+			if role == 1 {
+				vals = succTags
+			}
+			sv := strip(v)
+			for _, x := range vals {
+				if sv == x {
+					return true
+				}
+			}
+		}
+		return false
+	}
 	nP := 0
-	for _, in := range instrsOf(hm) {
+	for _, in := range instrsDeep(hm) {
 		p, ok := in.(*ssa.Panic)
 		if !ok {
 			continue
@@ -175,17 +262,15 @@ func ruleC10DiscDecoderContract(c *Ctx, rule string) {
 			if !ok || fieldOfAddr(fa) != fTags {
 				return false
 			}
-			e, ok := strip(unwrapIface(cl.Call.Args[1])).(*ssa.Extract)
-			return ok && decCall != nil && e.Tuple == ssa.Value(decCall) && e.Index == 1
+			return isDecPart(unwrapIface(cl.Call.Args[1]), 1)
 		})
 		excluded := map[int64]bool{}
 		for _, f := range facts {
 			if f.Op != token.NEQ {
 				continue
 			}
-			e, ok := strip(f.X).(*ssa.Extract)
 			k, isK := constInt(f.Y)
-			if ok && isK && decCall != nil && e.Tuple == ssa.Value(decCall) && e.Index == 0 {
+			if isK && isDecPart(f.X, 0) {
 				excluded[k] = true
 			}
 		}
@@ -394,5 +479,44 @@ func ruleC10ParseBeforeStore(c *Ctx, rule string) {
 		if n == 0 {
 			c.Bad(rule, FuncName(onMsg), "received key parsed before it is stored", "-", "OnMsg never stores a revealed key")
 		}
+	}
+}
+
+// ruleC10ResponseCapacity: the blocking send in the synchroniser's response handler is excused by the
+// reason "the channel has len(Membership)−1 slots and at most one send per authenticated member".  The
+// first half is a statement about this code, decided here: every channel stored into
+// topicPeerView.responses is made with capacity len(Member.Membership) − 1 (or more).  A capacity tied to
+// anything smaller (the expected member count of one Synchronize call) lets late or non-selected
+// members, whose tags are valid, fill the buffer: the next send blocks inside HandleMessage, on the
+// dispatcher's goroutine and under the synchroniser's lock, for ever once Synchronize has returned.
+func ruleC10ResponseCapacity(c *Ctx, rule string) {
+	m := c.Mod(ModRoot)
+	if m == nil {
+		return
+	}
+	fResp := c.mustField(m, PkgDisc, "topicPeerView", "responses")
+	fMemb := c.mustField(m, PkgDisc, "Member", "Membership")
+	if fResp == nil || fMemb == nil {
+		return
+	}
+	want := "len(field " + fieldKey(fMemb) + ")"
+	n := 0
+	for _, fn := range m.PkgFuncs(PkgDisc) {
+		for _, st := range storesToField([]*ssa.Function{fn}, fResp) {
+			n++
+			mk, ok := resultOf(st.Val).(*ssa.MakeChan)
+			if !ok {
+				c.Unk(rule, FuncName(fn), "capacity of the response channel", m.Pos(st.Pos()), "the value stored is not a make(chan …) the analyser can see")
+				continue
+			}
+			l := linOf(mk.Size)
+			ok2 := l.OK && len(l.Terms) == 1 && l.Terms[want] >= 1 && (l.Terms[want] > 1 || l.K >= -1)
+			c.Check(ok2, rule, FuncName(fn), "capacity of the response channel", m.Pos(mk.Pos()),
+				"make(chan, len(Membership) − 1): one slot for every other member",
+				"the response channel has fewer slots ("+l.String()+") than there are members who can send a valid response: once it is full the send in the response handler blocks the dispatcher goroutine inside HandleMessage (under the synchroniser's lock) for ever — a late or non-selected member wedges the node")
+		}
+	}
+	if n == 0 {
+		c.Bad(rule, "disc", "capacity of the response channel", "-", "no store into topicPeerView.responses found")
 	}
 }
